@@ -19,4 +19,4 @@ json.dump(d, open('/verif/seeded/%s/detect.json' % sid, 'w'), indent=1)
 PY
 }
 export -f run_one
-if [ $# -gt 0 ]; then for i in "$@"; do echo /tmp/seeds/$i; done; else ls -d /tmp/seeds/C??[ab]; fi | xargs -P 2 -I{} bash -c 'run_one {}'
+if [ $# -gt 0 ]; then for i in "$@"; do echo /tmp/seeds/$i; done; else ls -d /tmp/seeds/C??[ab]; fi | xargs -P ${SEED_P:-2} -I{} bash -c 'run_one {}'
